@@ -992,6 +992,18 @@ class SetAlg:
                 return ("mut", self.canon(base), effs2)
             if len(effs) != len(t[2]) or base is not t[1]:
                 return ("mut", self.canon(base), tuple(self.canon(_read_through(e_)) if isinstance(e_, tuple) else e_ for e_ in effs))
+        if h == "op" and len(t) == 4 and t[1] in ("+", "*") and is_term(t[2]) and is_term(t[3]) and t[2][0] == "const" and isinstance(t[2][1], (int, float)) \
+                and not isinstance(t[2][1], bool) and t[3][0] != "const":
+            return self.canon_opaque(("op", t[1], t[3], t[2]))  # 1 + i is i + 1 (numbers)
+        if h == "index" and len(t) == 3 and is_term(t[1]) and t[1][0] == "mut" and len(t[1]) == 3:
+            # d[k] right after d[k] = v (a memo filled and read in one step): v
+            kc = self.canon(t[2])
+            for e_ in reversed(t[1][2]):
+                if e_[0] == "setitem" and len(e_) == 3:
+                    if self.canon(e_[1]) == kc:
+                        return self.canon(e_[2])
+                    continue
+                break
         if h == "attr" and len(t) == 3 and is_term(t[1]) and t[1][0] == "mut":
             r_ = _read_through(t)
             if r_ is not t:
